@@ -320,7 +320,8 @@ Proof.
   apply replay_stage_weaker; assumption.
 Qed.
 
-(* the sketch stage keeps the filter inside P unless it falls back *)
+(* the sketch stage keeps the filter inside P; the code before d76304f (fx = false) only
+   outside its empty-intersection branch *)
 Lemma sketch_stage_keeps fx st rq cands P cf cf' :
   cf_sub P cf ->
   sketch_stage_gen fx st rq cands cf = Cont cf' ->
@@ -335,7 +336,9 @@ Proof.
   destruct (is_nil cands); cbn [negb andb].
   1:{ intros E _; inversion E; subst. exists l; auto. }
   destruct (is_nil (keep_in cands l)) eqn:En.
-  - destruct fx; [discriminate|]. intros _ [H|H]; discriminate.
+  - destruct fx.
+    + intros E _; inversion E; subst. exists l; auto.
+    + intros _ [H|H]; discriminate.
   - intros E _; inversion E; subst. exists (keep_in cands l). split; [reflexivity|].
     intros x H. apply keep_in_In in H. apply Hl. tauto.
 Qed.
@@ -345,11 +348,11 @@ Qed.
 (* (A) final candidate filter inside the replay id set *)
 Theorem filter_subset_replay_gen fx st rq cands cf :
   asof_given rq = true ->
-  fx = true \/ known_fallback st rq cands = false ->
+  fx = true \/ sketch_disjoint st rq cands = false ->
   candidate_filter_gen fx st rq cands = Cont cf ->
   cf_sub (fun x => In x (replay_ids (st_frames st) (rq_as_of_frame rq) (rq_as_of_ts rq))) cf.
 Proof.
-  intros Ha Hk. unfold candidate_filter_gen, bind, known_fallback in *.
+  intros Ha Hk. unfold candidate_filter_gen, bind, sketch_disjoint in *.
   destruct (pre_sketch st rq) as [s|cf0] eqn:Ep; [discriminate|].
   pose proof (pre_sketch_asof _ _ _ Ha Ep) as Hsub.
   intros Hs. eapply sketch_stage_keeps; [exact Hsub | exact Hs |].
@@ -365,7 +368,7 @@ Section Engine.
   (* (B) every hit is in the replay set *)
   Theorem hits_in_replay_gen fx st rq cands x :
     asof_given rq = true ->
-    fx = true \/ known_fallback st rq cands = false ->
+    fx = true \/ sketch_disjoint st rq cands = false ->
     In x (search_ids_gen fx engine st rq cands) ->
     In x (replay_ids (st_frames st) (rq_as_of_frame rq) (rq_as_of_ts rq)).
   Proof.
@@ -378,7 +381,7 @@ Section Engine.
   (* (C) ... hence is an active frame of the table with id <= n and timestamp <= t *)
   Theorem hits_not_future_gen fx st rq cands x :
     asof_given rq = true ->
-    fx = true \/ known_fallback st rq cands = false ->
+    fx = true \/ sketch_disjoint st rq cands = false ->
     In x (search_ids_gen fx engine st rq cands) ->
     exists f, In f (st_frames st) /\ f_id f = x /\ f_active f = true /\
               (forall n, rq_as_of_frame rq = Some n -> (x <= n)%N) /\
@@ -393,7 +396,7 @@ Section Engine.
   Theorem hits_not_future_unique_gen fx st rq cands x f :
     NoDup (map f_id (st_frames st)) ->
     asof_given rq = true ->
-    fx = true \/ known_fallback st rq cands = false ->
+    fx = true \/ sketch_disjoint st rq cands = false ->
     In x (search_ids_gen fx engine st rq cands) ->
     In f (st_frames st) -> f_id f = x ->
     f_active f = true /\
@@ -426,16 +429,21 @@ Section Engine.
     - apply engine_none.
   Qed.
 
+  (* "the sketch has no false negative for this query": whatever the engine returns
+     unfiltered is among the sketch candidates *)
+  Definition sketch_complete (cands : list N) : Prop := forall x, In x (engine None) -> In x cands.
+
   (* (D) core: a request rq' that reaches the sketch stage with a larger filter whenever rq
-     reaches it, and runs the same sketch stage, returns every hit of rq *)
+     reaches it, and runs the same sketch stage, returns every hit of rq -- outside the
+     empty-intersection branch, or (current code) when the sketch has no false negative *)
   Lemma monotone_core fx st rq rq' cands :
     sketch_on st rq' = sketch_on st rq ->
     (forall cf, pre_sketch st rq = Cont cf ->
                 exists cf0, pre_sketch st rq' = Cont cf0 /\ cf_le cf cf0) ->
-    fx = true \/ known_fallback st rq cands = false ->
+    sketch_disjoint st rq cands = false \/ (fx = true /\ sketch_complete cands) ->
     incl (search_ids_gen fx engine st rq cands) (search_ids_gen fx engine st rq' cands).
   Proof.
-    intros Hso Hpre Hk. unfold search_ids_gen, candidate_filter_gen, bind, known_fallback in *.
+    intros Hso Hpre Hk. unfold search_ids_gen, candidate_filter_gen, bind, sketch_disjoint in *.
     destruct (pre_sketch st rq) as [s|cf] eqn:Ep; [intros x []|].
     destruct (Hpre _ eq_refl) as [cf0 [Ep0 Hle]]. rewrite Ep0.
     unfold sketch_stage_gen. rewrite Hso.
@@ -451,8 +459,14 @@ Section Engine.
     destruct cf as [l|].
     - (* filtered request: l ∩ cands *)
       destruct (is_nil (keep_in cands l)) eqn:En.
-      + (* empty intersection: fixed code exits; original code is the known class *)
-        destruct fx; [intros x [] | destruct Hk as [Hk|Hk]; discriminate].
+      + (* empty intersection *)
+        destruct Hk as [Hk|[-> Hc]]; [discriminate|].
+        (* current code: filter l; every hit is in l, and (sketch complete) in cands *)
+        intros x Hx. exfalso.
+        assert (Hin : In x (keep_in cands l)).
+        { apply keep_in_In. split; [eapply engine_sound; exact Hx|].
+          apply Hc. eapply engine_none. exact Hx. }
+        apply is_nil_true in En. rewrite En in Hin. destruct Hin.
       + apply is_nil_false in En.
         destruct cf0 as [l0|]; cbn in Hle.
         * destruct Hle as [l' [E Hi]]. inversion E; subst l'.
@@ -467,7 +481,7 @@ Section Engine.
 
   (* adding as_of_* never adds a hit *)
   Theorem monotone_gen fx st rq cands :
-    fx = true \/ known_fallback st rq cands = false ->
+    sketch_disjoint st rq cands = false \/ (fx = true /\ sketch_complete cands) ->
     incl (search_ids_gen fx engine st rq cands)
          (search_ids_gen fx engine st (drop_as_of rq) cands).
   Proof.
@@ -477,7 +491,7 @@ Section Engine.
   (* tightening either cut-off (or adding one next to the other) never adds a hit *)
   Theorem monotone_weaker_gen fx st rq aof' aot' cands :
     cut_le_N (rq_as_of_frame rq) aof' = true -> cut_le_Z (rq_as_of_ts rq) aot' = true ->
-    fx = true \/ known_fallback st rq cands = false ->
+    sketch_disjoint st rq cands = false \/ (fx = true /\ sketch_complete cands) ->
     incl (search_ids_gen fx engine st rq cands)
          (search_ids_gen fx engine st (with_as_of rq aof' aot') cands).
   Proof.
@@ -485,15 +499,28 @@ Section Engine.
     intros cf. apply pre_sketch_weaker; assumption.
   Qed.
 
-  (* in the known class with no date / temporal filter, the two requests run with the
-     SAME filter (the sketch set): the as_of_* parameters are ignored altogether *)
-  Theorem fallback_ignores_asof st rq cands :
-    rq_date rq = None -> rq_temporal rq = None ->
-    known_fallback st rq cands = true ->
-    candidate_filter st rq cands = Cont (Some cands) /\
-    candidate_filter st (drop_as_of rq) cands = Cont (Some cands).
+  (* requests that switch the sketch off: monotone with no further condition *)
+  Theorem monotone_no_sketch_gen fx st rq aof' aot' cands :
+    sketch_on st rq = false ->
+    cut_le_N (rq_as_of_frame rq) aof' = true -> cut_le_Z (rq_as_of_ts rq) aot' = true ->
+    incl (search_ids_gen fx engine st rq cands)
+         (search_ids_gen fx engine st (with_as_of rq aof' aot') cands).
   Proof.
-    intros Hd Ht. unfold known_fallback, candidate_filter, candidate_filter_gen, bind.
+    intros Hoff Hn Ht. apply monotone_weaker_gen; try assumption. left.
+    unfold sketch_disjoint. destruct (pre_sketch st rq) as [s|[l|]]; try reflexivity.
+    rewrite Hoff. reflexivity.
+  Qed.
+
+  (* historical (code before d76304f): in its empty-intersection branch with no date /
+     temporal filter, the two requests ran with the SAME filter (the sketch set): the
+     as_of_* parameters were ignored altogether *)
+  Theorem old_fallback_ignores_asof st rq cands :
+    rq_date rq = None -> rq_temporal rq = None ->
+    sketch_disjoint st rq cands = true ->
+    candidate_filter_old st rq cands = Cont (Some cands) /\
+    candidate_filter_old st (drop_as_of rq) cands = Cont (Some cands).
+  Proof.
+    intros Hd Ht. unfold sketch_disjoint, candidate_filter_old, candidate_filter_gen, bind.
     assert (Ep0 : pre_sketch st (drop_as_of rq) = Cont None).
     { unfold pre_sketch, bind, date_stage, temporal_stage, drop_as_of. cbn. rewrite Hd, Ht. reflexivity. }
     rewrite Ep0.
@@ -504,15 +531,15 @@ Section Engine.
   Qed.
 End Engine.
 
-(* in the known class the filter handed to the engine is the sketch set, none of whose
-   members is in the filter built so far *)
-Theorem fallback_escapes st rq cands :
-  known_fallback st rq cands = true ->
+(* in the empty-intersection branch the current code hands the engine exactly the filter
+   built so far (the sketch pre-filter is dropped, the hard filters are kept) *)
+Theorem disjoint_keeps_hard_filter st rq cands :
+  sketch_disjoint st rq cands = true ->
   exists existing, pre_sketch st rq = Cont (Some existing) /\ existing <> [] /\ cands <> [] /\
-    candidate_filter st rq cands = Cont (Some cands) /\
+    candidate_filter st rq cands = Cont (Some existing) /\
     forall x, In x cands -> ~ In x existing.
 Proof.
-  unfold known_fallback, candidate_filter, candidate_filter_gen, bind.
+  unfold sketch_disjoint, candidate_filter, candidate_filter_gen, bind.
   destruct (pre_sketch st rq) as [s|[l|]] eqn:Ep; try discriminate.
   intros H. apply andb_true_iff in H as [H H3]. apply andb_true_iff in H as [H1 H2].
   exists l. split; [reflexivity|]. split; [eapply pre_sketch_nonempty; exact Ep|].
@@ -523,20 +550,51 @@ Proof.
   rewrite H3 in Hin. destruct Hin.
 Qed.
 
-(* with only as_of_* (no date / temporal filter) the filter built so far IS the replay
-   set: in the known class every id handed to the engine is outside the replay set *)
-Theorem fallback_all_future st rq cands x :
+(* historical: the code before d76304f handed the engine the sketch set there, none of
+   whose members is in the filter built so far *)
+Theorem old_fallback_escapes st rq cands :
+  sketch_disjoint st rq cands = true ->
+  exists existing, pre_sketch st rq = Cont (Some existing) /\ existing <> [] /\ cands <> [] /\
+    candidate_filter_old st rq cands = Cont (Some cands) /\
+    forall x, In x cands -> ~ In x existing.
+Proof.
+  unfold sketch_disjoint, candidate_filter_old, candidate_filter_gen, bind.
+  destruct (pre_sketch st rq) as [s|[l|]] eqn:Ep; try discriminate.
+  intros H. apply andb_true_iff in H as [H H3]. apply andb_true_iff in H as [H1 H2].
+  exists l. split; [reflexivity|]. split; [eapply pre_sketch_nonempty; exact Ep|].
+  apply negb_true_iff in H2. split; [apply is_nil_false; assumption|].
+  unfold sketch_stage_gen. rewrite H1, H2, H3. split; [reflexivity|].
+  intros x Hx Hl. apply is_nil_true in H3.
+  assert (Hin : In x (keep_in cands l)) by (apply keep_in_In; auto).
+  rewrite H3 in Hin. destruct Hin.
+Qed.
+
+(* historical: with only as_of_* (no date / temporal filter) the filter built so far IS the
+   replay set: the old code handed the engine only ids outside the replay set *)
+Theorem old_fallback_all_future st rq cands x :
   rq_date rq = None -> rq_temporal rq = None -> asof_given rq = true ->
-  known_fallback st rq cands = true ->
-  candidate_filter st rq cands = Cont (Some cands) /\
+  sketch_disjoint st rq cands = true ->
+  candidate_filter_old st rq cands = Cont (Some cands) /\
   (In x cands -> ~ In x (replay_ids (st_frames st) (rq_as_of_frame rq) (rq_as_of_ts rq))).
 Proof.
-  intros Hd Ht Ha Hk. destruct (fallback_escapes _ _ _ Hk) as [l [Ep [_ [_ [Hc Hout]]]]].
+  intros Hd Ht Ha Hk. destruct (old_fallback_escapes _ _ _ Hk) as [l [Ep [_ [_ [Hc Hout]]]]].
   split; [assumption|]. intros Hx.
   assert (l = replay_ids (st_frames st) (rq_as_of_frame rq) (rq_as_of_ts rq)) as <-; [|auto].
   revert Ep. unfold pre_sketch, bind, date_stage, temporal_stage, replay_stage, inter_stage.
   rewrite Hd, Ht, Ha. destruct (is_nil (replay_ids _ _ _)); [discriminate|].
   intros E; inversion E; reflexivity.
+Qed.
+
+(* the current composition differs from the one before d76304f only in that branch *)
+Lemma agrees_with_old_outside_disjoint st rq cands :
+  sketch_disjoint st rq cands = false ->
+  candidate_filter st rq cands = candidate_filter_old st rq cands.
+Proof.
+  unfold sketch_disjoint, candidate_filter_old, candidate_filter, candidate_filter_gen, bind.
+  destruct (pre_sketch st rq) as [s|[l|]]; try reflexivity.
+  unfold sketch_stage_gen. destruct (sketch_on st rq); cbn [andb]; [|reflexivity].
+  destruct (is_nil cands); cbn [negb andb]; [reflexivity|].
+  destruct (is_nil (keep_in cands l)); [discriminate | reflexivity].
 Qed.
 
 (* ---------------------------------------------------------------- the table engine *)
@@ -552,15 +610,3 @@ Qed.
 
 Lemma table_engine_none U l : incl (table_engine U (Some l)) (table_engine U None).
 Proof. intros x H. cbn in *. apply filter_In in H. tauto. Qed.
-
-(* the repaired composition differs from the original only inside the known class *)
-Lemma fixed_agrees_outside_known st rq cands :
-  known_fallback st rq cands = false ->
-  candidate_filter_fixed st rq cands = candidate_filter st rq cands.
-Proof.
-  unfold known_fallback, candidate_filter_fixed, candidate_filter, candidate_filter_gen, bind.
-  destruct (pre_sketch st rq) as [s|[l|]]; try reflexivity.
-  unfold sketch_stage_gen. destruct (sketch_on st rq); cbn [andb]; [|reflexivity].
-  destruct (is_nil cands); cbn [negb andb]; [reflexivity|].
-  destruct (is_nil (keep_in cands l)); [discriminate | reflexivity].
-Qed.
